@@ -246,6 +246,90 @@ theorem mutex_exec {snap} (ls : List Label) {s s' : Sys}
     · next s1 h1 => exact ih (mutex_step h h1) hs
     · cases hs
 
+/-! ### the lock is held only by a job inside the critical section; progress -/
+
+def Held (s : Sys) : Prop := ∀ j, s.lock = some j → (s.jobs j).inCS = true
+
+theorem held_init (init : Option Content) : Held (initSys init) := by
+  intro j h; simp [initSys] at h
+
+theorem held_spawn {snap init} {s : Sys} (ha : AtomInv snap init s) (h : Held s) (k : Nat) :
+    Held (spawn { s with ver := s.ver + k }) := by
+  intro j hj
+  simp only [spawn] at hj ⊢
+  have hcs := h j hj
+  by_cases e : j = s.njobs
+  · subst e
+    have := ha.fresh s.njobs (Nat.le_refl _)
+    rw [this] at hcs
+    simp [Pc.inCS] at hcs
+  · simp only [e, if_false]
+    exact hcs
+
+theorem held_adv {snap} {s s' : Sys} {j : Nat}
+    (hm : Mutex s) (h : Held s) (hs : adv true snap s j = some s') : Held s' := by
+  unfold adv at hs
+  split at hs
+  all_goals (try split at hs)
+  all_goals (try split at hs)
+  all_goals (first | (cases hs; done) | skip)
+  all_goals
+    injection hs with hs
+    subst hs
+    intro i hi
+    have hh := h i
+    have hmj := hm j
+    by_cases e : i = j
+    · subst e
+      simp_all [setJob, setTemp, Pc.inCS]
+    · simp_all [setJob, setTemp, Pc.inCS]
+
+theorem held_fault {s s' : Sys} {j : Nat}
+    (h : Held s) (hs : fault s j = some s') : Held s' := by
+  unfold fault at hs
+  split at hs
+  all_goals (first | (cases hs; done) | skip)
+  all_goals
+    injection hs with hs
+    subst hs
+    intro i hi
+    have hh := h i
+    by_cases e : i = j
+    · subst e
+      simp_all [setJob, setTemp, Pc.inCS]
+    · simp_all [setJob, setTemp, Pc.inCS]
+
+theorem held_step {snap init} {s s' : Sys} {l : Label}
+    (ha : AtomInv snap init s) (hm : Mutex s) (h : Held s)
+    (hs : step true snap s l = some s') : Held s' := by
+  unfold step at hs
+  split at hs
+  · cases hs
+  · cases l with
+    | mutate => injection hs with hs; subst hs; exact held_spawn ha h 1
+    | spawn => injection hs with hs; subst hs; exact held_spawn ha h 0
+    | adv j => exact held_adv hm h hs
+    | fault j => exact held_fault h hs
+    | crash => injection hs with hs; subst hs; exact h
+
+theorem held_exec {snap init} (ls : List Label) {s s' : Sys}
+    (ha : AtomInv snap init s) (hm : Mutex s) (h : Held s)
+    (hs : exec true snap ls s = some s') : Held s' := by
+  induction ls generalizing s with
+  | nil => simp [exec] at hs; subst hs; exact h
+  | cons l ls ih =>
+    simp only [exec] at hs
+    split at hs
+    · next s1 h1 => exact ih (atomInv_step ha h1) (mutex_step hm h1) (held_step ha hm h h1) hs
+    · cases hs
+
+/-- a job inside the critical section can always take its next step -/
+theorem adv_enabled_of_inCS {snap} {s : Sys} {j : Nat} (h : (s.jobs j).inCS = true) :
+    ∃ s', adv true snap s j = some s' := by
+  unfold adv
+  split <;> simp_all [Pc.inCS]
+  split <;> simp
+
 /-! ### convergence invariant (locked relation, quiet labels) -/
 
 /-- Either nothing was ever submitted, or some job will still read the state, or the lock holder
